@@ -21,11 +21,13 @@ def sh(cmd, cwd=None, timeout=3600):
 
 def fresh():
     os.makedirs(CF, exist_ok=True)
-    sh(f"rsync -a --delete --exclude target --exclude .git /repo/ {CF}/repo/")
-    sh(f"rsync -a --delete --exclude target /verif/harness/ {CF}/harness/")
-    sh(f"sed -i 's#\"/repo#\"{CF}/repo#' {CF}/harness/Cargo.toml")
-    # rsync keeps mtimes: make cargo notice every source
-    sh(f"find {CF}/repo -name '*.rs' -newer {CF}/.stamp -print0 2>/dev/null | xargs -0 -r touch")
+    # compare by checksum and do NOT preserve times: a file whose content changes gets a fresh mtime
+    # (cargo decides by mtime), an unchanged file keeps its own
+    sh(f"rsync -rlpc --delete --exclude target --exclude .git /repo/ {CF}/repo/")
+    sh(f"rsync -rlpc --delete --exclude target --exclude Cargo.toml /verif/harness/ {CF}/harness/")
+    if not os.path.exists(f"{CF}/harness/Cargo.toml"):
+        shutil.copy("/verif/harness/Cargo.toml", f"{CF}/harness/Cargo.toml")
+        sh(f"sed -i 's#\"/repo#\"{CF}/repo#' {CF}/harness/Cargo.toml")
 
 def run_check(prop, tier, extra_checks=()):
     pkg = PKG[prop]
